@@ -861,7 +861,9 @@ def run(ctx):
                 ctx.tie_broken("correspondence: re-marshal verdict differs from the model", "line: %s\nimpl: %s\nmodel: %s" % (l[:400], o[:600], mo[:600]))
 
     # ---------------- bytes captured from the peer end of a real connection (send_message_write_all) = header ++ body
-    widx = r2.sample([i for i, m in enumerate(msgs) if m is not None and lines[i].startswith("m ") and m.body is not None and parsed[i] is not None],
+    # (not the messages with hundreds of descriptors: one sendmsg carries at most 253, that limit is C10/C11's subject)
+    widx = r2.sample([i for i, m in enumerate(msgs) if m is not None and lines[i].startswith("m ") and m.body is not None and parsed[i] is not None
+                      and int(parsed[i]["B"].split(":")[2]) <= 200],
                      1000 if thorough else 200)
     wl = ["w " + lines[i][2:] for i in widx]
     wout = run_sharded(exe, wl, "harness", per=40)
